@@ -14,6 +14,7 @@ Value specs (plain data): ["int",n] ["big",k] ["float",s] ["str",s] ["bytes",hex
   ["odict",[[i,scalar],..]] dict keyed by graph objects  ["oset",[i,..]] set of graph objects
   ["huge",kind,n,ch] str/bytes/bytearray payload around / above 64 KiB
 """
+from eglib import h
 import io
 import pickle
 import sys
@@ -499,7 +500,7 @@ def check_big(case):
         from eglib import battery
 
         for k, flt in ((0, functools.partial(battery.f_anchor, vs[-1])), (len(vs) // 2, battery.AnchorFilter(vs[0]).accept), (len(vs) - 1, functools.partial(battery.f_anchor, vs[0]))):
-            helpers.neighbors(vs[k], 1, 1, flt)
+            h.neighbors(vs[k], 1, 1, flt)
     form, order = canon.canonical(uni)
     try:
         limit = _depth() + case["extra"]
@@ -521,11 +522,11 @@ def check_big(case):
         # spot queries on the copy
         cvs = copy.vertices
         for k in (0, len(vs) // 2, len(vs) - 1):
-            a = [x.i for x in helpers.neighbors(vs[k], 1, 1)]
-            c = [x.i for x in helpers.neighbors(cvs[k], 1, 1)]
+            a = [x.i for x in h.neighbors(vs[k], 1, 1)]
+            c = [x.i for x in h.neighbors(cvs[k], 1, 1)]
             require(a == c, "copy-answers-differ", f"neighbors of vertex {k}: {a} vs {c}")
-        a = [x.i for x in B.bft(uni, vs[0], direction_sensitive=1, unknown_handling=1)]
-        c = [x.i for x in B.bft(copy, cvs[0], direction_sensitive=1, unknown_handling=1)]
+        a = [x.i for x in B.bft(uni, vs[0], **h.kw(1, 1))]
+        c = [x.i for x in B.bft(copy, cvs[0], **h.kw(1, 1))]
         require(a == c, "copy-answers-differ", "bft over the big copy differs")
     finally:
         sys.setrecursionlimit(old)
